@@ -11,7 +11,7 @@ package main
 //   under the channel's read lock) followed by SendRemainingPackets (takes the read lock again, writes the last packet).
 //   The transport holds back the k-th Write of the message (k = 1..npackets): the sender is parked inside a read-lock
 //   section.  Then another goroutine calls Channel.Close (closer 0) or Conn.Close (closer 1; channel 0 is open too, the
-//   peer answers its logout at once (peer 0) / after 300 ms (peer 1) / never (peer 2, thorough tier, the documented minute)).
+//   peer answers its logout at once (peer 0) / after 300 ms (peer 1) / never (peer 2: not generated, see genCloseDuringSend)).
 //   mode 1: the scenario waits until Close is seen parked in tdsChan.Lock() (goroutine dump), with ack = 1 the peer's
 //           acknowledgement of the teardown (a header-only CLOSE packet) then arrives and the reader queues in
 //           WritePacket's RLock behind the pending writer, 20 ms later the held Write is released.
@@ -247,14 +247,10 @@ func genCloseDuringSend(out caser, thorough bool) {
 				}
 			}
 		}
-		if thorough && rep == 0 {
-			// a peer that never answers the logout of channel 0: Conn.Close returns after the documented minute
-			for np := 1; np <= 3; np++ {
-				for k := 1; k <= np; k++ {
-					add(cdsCfg{kind: 1, closer: 1, ps: 64, npackets: np, k: k, mode: 1, peer: 2})
-				}
-			}
-		}
+		// (a peer that never answers the logout of channel 0 is not part of this family: Conn.Close then sits in that logout for
+		// the documented minute before or after it reaches the logical channel, depending on Go's map iteration order, and
+		// the window "Close arrives while the send is in progress" is missed or hit at random; the silent peer is the subject
+		// of the conn-close families)
 	}
 	parallel(out, 8, fs)
 }
